@@ -448,6 +448,9 @@ def handle (req : Json) : Except String Json := do
     let ops ← opsA.toList.mapM decFluentOp
     let l := List.range k
     pure (Json.mkObj [("model", encRun (Fluent.run ops (.src l))), ("spec", encRun (Fluent.runSpec ops l))])
+  | "q.typed" =>
+    let path ← decPath (← req.getObjVal? "path")
+    pure (Json.mkObj [("wt", .bool (Rfc.wtSegs path.segs))])
   | "q.slice" =>
     let len ← req.getObjValAs? Nat "len"
     let a ← optInt (← req.getObjVal? "a")
